@@ -228,6 +228,13 @@ def iso_text(inst, off_min=None, frac="", sep="T", year_style="rfc"):
 # task "epoch": typed epochs through the core bundle
 # ------------------------------------------------------------------------------------------
 
+PATHS = {}      # profile -> jaqmon binary, built once in main() (workers are forked afterwards)
+
+
+def client(profile):
+    return par.client(profile, path=PATHS.get(profile))
+
+
 T = 'def t(f): try ["ok", f] catch ["err"]; '
 SFMT = "%Y-%m-%dT%H:%M:%SZ"
 CORE_OPS = [
@@ -394,7 +401,7 @@ def judge_core_op(ctx, name, r, it):
 
 def judge_epochs(ctx, values):
     """values: model values (typed epochs / rejectable inputs)"""
-    c = par.client(ctx.profile)
+    c = client(ctx.profile)
     items = []
     for v in values:
         kind, X = exact(v)
@@ -485,7 +492,7 @@ FMT_PROG = T + ('[$FS[] as $F | t(strftime($F)) as $s | if $s[0] == "ok" then '
 
 
 def judge_fmt(ctx, values):
-    c = par.client(ctx.profile)
+    c = client(ctx.profile)
     items = []
     for v in values:
         kind, X = exact(v)
@@ -621,7 +628,7 @@ def bdt_expect(a):
 
 
 def judge_bdt(ctx, arrays):
-    c = par.client(ctx.profile)
+    c = client(ctx.profile)
     items = [dict(v=a, w=enc(a), exp=bdt_expect(a)) for a in arrays]
     r = c.eval(BDT_PROG, [{"input": it["w"]} for it in items], take=2, timeout=300)
     if "results" not in r:
@@ -719,7 +726,7 @@ ISO_PROG = T + "[t(fromdate), t(fromdateiso8601)]"
 
 def judge_iso(ctx, items):
     """items: dicts {text | value, mode: strict|if-answered|error|observe, variant, num, den}"""
-    c = par.client(ctx.profile)
+    c = client(ctx.profile)
     ws = [enc(S(it["text"])) if "text" in it else it["value"] for it in items]
     r = c.eval(ISO_PROG, [{"input": w} for w in ws], take=2, timeout=300)
     if "results" not in r:
@@ -775,7 +782,7 @@ WRONG_PROG = T + '[t(mktime), t(fromdate), t(strptime("%s")), t(strptime("%%s"))
 
 
 def judge_wrongtype(ctx, values):
-    c = par.client(ctx.profile)
+    c = client(ctx.profile)
     ws = [enc(v) for v in values]
     r = c.eval(WRONG_PROG, [{"input": w} for w in ws], take=2, timeout=120)
     for v, w, res in zip(values, ws, r["results"]):
@@ -1145,7 +1152,7 @@ def replay(run):
 def main():
     run = Run("C20")
     for p in ("verif", "release"):
-        build.jaqmon(p)
+        PATHS[p] = build.jaqmon(p)
     if run.replay:
         return replay(run)
     thorough = run.tier == "thorough"
